@@ -4,6 +4,8 @@
 use crate::framework::{shrink_vec, Ctx, Scenario, Tier, Violation};
 use crate::prng::Rng;
 use cascette_client_storage::index::{IndexManager, UpdateStatus};
+use cascette_client_storage::container::residency::ResidencyContainer;
+use cascette_client_storage::container::AccessMode;
 use cascette_client_storage::kmt::key_state::ResidencyDb;
 use cascette_crypto::EncodingKey;
 use serde::{Deserialize, Serialize};
@@ -121,7 +123,7 @@ impl Scenario for Kmt {
         "exploration"
     }
     fn rule(&self) -> &'static str {
-        "Seeded histories (5-60 ops, one op may be a burst of up to 1400 entries in ONE bucket so the 1260-entry update section fills) over add/update/update_status/remove/flush_bucket/flush_all/save_all/reload/clear_bucket/clear on the real IndexManager with real .idx files, and over mark_resident/mark_non_resident/mark_span_non_resident/delete_keys (incl. one >10000-key batch)/save/load on the real ResidencyDb. Keys: bucket-targeted by inverting the bucket hash, aliases sharing the 9-byte prefix, all-0xFF, archive id 1023, offset 2^30-1. After every op lookups of touched keys and never-inserted neighbours, entry_count and iter_entries/scan_keys are compared with a BTreeMap model; booleans returned by mutators must equal 'the model changed'; the same after save + reload into a fresh instance. Non-trivial = >= 2 mutations; distinct = hash of (config, ops, observed results)."
+        "Seeded histories (5-60 ops, one op may be a burst of up to 1400 entries in ONE bucket so the 1260-entry update section fills) over add/update/update_status/remove/flush_bucket/flush_all/save_all/reload/clear_bucket/clear on the real IndexManager with real .idx files, and over mark_resident/mark_non_resident/mark_span_non_resident/delete_keys (incl. one >10000-key batch)/save/load on the real ResidencyDb, driven directly or (one run in three of that arm) through its ResidencyContainer wrapper (initialize/flush/re-initialize as load). Keys: bucket-targeted by inverting the bucket hash, aliases sharing the 9-byte prefix, all-0xFF, archive id 1023, offset 2^30-1. After every op lookups of touched keys and never-inserted neighbours, entry_count and iter_entries/scan_keys are compared with a BTreeMap model; booleans returned by mutators must equal 'the model changed'; the same after save + reload into a fresh instance. Non-trivial = >= 2 mutations; distinct = hash of (config, ops, observed results)."
     }
     fn assumptions(&self) -> Vec<&'static str> {
         vec![
@@ -134,6 +136,7 @@ impl Scenario for Kmt {
         vec![
             ("IndexManager (update section, merge, tombstones, save_index, load_index)", "real"),
             ("ResidencyDb (bucket pages, murmur fast path, batch_delete, save, load)", "real"),
+            ("ResidencyContainer (initialize, mark_*, delete_keys, flush)", "real"),
             ("std::fs / tokio::fs on tmpfs sandbox", "real"),
         ]
     }
@@ -286,7 +289,7 @@ impl Scenario for Kmt {
                 ops.push(op);
             }
         }
-        Case { sys: if index { "index".into() } else { "residency".into() }, keys: keys.iter().map(hex::encode).collect(), bucket, ops }
+        Case { sys: if index { "index".into() } else if rng.chance(1, 3) { "residency_container".into() } else { "residency".into() }, keys: keys.iter().map(hex::encode).collect(), bucket, ops }
     }
 
     fn execute(&self, case: &Case, ctx: &mut Ctx) -> Option<Violation> {
@@ -614,13 +617,108 @@ async fn run_index(case: &Case, ctx: &mut Ctx) -> Option<Violation> {
     None
 }
 
+/// The residency database, driven directly or through its ResidencyContainer wrapper.
+enum Rs {
+    Db(ResidencyDb, std::path::PathBuf),
+    Cont(ResidencyContainer, std::path::PathBuf),
+}
+impl Rs {
+    fn open_container(dir: &std::path::Path) -> Result<ResidencyContainer, String> {
+        let mut c = ResidencyContainer::new("wow".to_string(), AccessMode::ReadWrite, dir.to_path_buf());
+        super::paused_runtime().block_on(c.initialize()).map_err(|e| e.to_string())?;
+        Ok(c)
+    }
+    fn mark_resident(&mut self, k: &[u8; 16]) -> Result<(), String> {
+        match self {
+            Rs::Db(d, _) => {
+                d.mark_resident(k);
+                Ok(())
+            }
+            Rs::Cont(c, _) => c.mark_resident(k).map_err(|e| e.to_string()),
+        }
+    }
+    fn mark_non_resident(&mut self, k: &[u8; 16]) -> Result<(), String> {
+        match self {
+            Rs::Db(d, _) => {
+                d.mark_non_resident(k);
+                Ok(())
+            }
+            Rs::Cont(c, _) => c.mark_non_resident(k).map_err(|e| e.to_string()),
+        }
+    }
+    fn mark_span_non_resident(&mut self, k: &[u8; 16], off: i32, len: i32) -> Result<(), String> {
+        match self {
+            Rs::Db(d, _) => {
+                d.mark_span_non_resident(k, off, len);
+                Ok(())
+            }
+            Rs::Cont(c, _) => c.mark_span_non_resident(k, off, len).map_err(|e| e.to_string()),
+        }
+    }
+    fn delete_keys(&mut self, ks: &[[u8; 16]]) -> Result<(), String> {
+        match self {
+            Rs::Db(d, _) => {
+                d.delete_keys(ks);
+                Ok(())
+            }
+            Rs::Cont(c, _) => c.delete_keys(ks).map_err(|e| e.to_string()),
+        }
+    }
+    fn save(&mut self) -> Result<(), String> {
+        match self {
+            Rs::Db(d, _) => d.save().map_err(|e| e.to_string()),
+            Rs::Cont(c, _) => c.flush().map_err(|e| e.to_string()),
+        }
+    }
+    /// a fresh instance on the same files
+    fn reload(&mut self) -> Result<(), String> {
+        match self {
+            Rs::Db(d, p) => {
+                *d = ResidencyDb::load(p).map_err(|e| e.to_string())?;
+                Ok(())
+            }
+            Rs::Cont(c, dir) => {
+                *c = Rs::open_container(dir)?;
+                Ok(())
+            }
+        }
+    }
+    fn is_resident(&self, k: &[u8; 16]) -> bool {
+        match self {
+            Rs::Db(d, _) => d.is_resident(k),
+            Rs::Cont(c, _) => c.is_resident(k),
+        }
+    }
+    fn scan_keys(&self) -> Vec<[u8; 16]> {
+        match self {
+            Rs::Db(d, _) => d.scan_keys(),
+            Rs::Cont(c, _) => c.scan_keys(),
+        }
+    }
+    fn entry_count(&self) -> usize {
+        match self {
+            Rs::Db(d, _) => d.entry_count(),
+            Rs::Cont(c, _) => c.resident_count(),
+        }
+    }
+}
+
 fn run_residency(case: &Case, ctx: &mut Ctx) -> Option<Violation> {
     let dir = ctx.root.join("residency");
     std::fs::create_dir_all(&dir).ok()?;
     let path = dir.join("residency.db");
     let keys: Vec<[u8; 16]> = case.keys.iter().map(|s| parse16(s)).collect();
     let nk = keys.len().max(1);
-    let mut db = ResidencyDb::new(path.clone());
+    let via_container = case.sys == "residency_container";
+    let sysname = if via_container { "residency_container" } else { "residency" };
+    let mut db = if via_container {
+        match Rs::open_container(&dir) {
+            Ok(c) => Rs::Cont(c, dir.clone()),
+            Err(e) => return Some(Violation::new("C05.construct", "construct_failed", sig(sysname, "construct_failed", ""), format!("ResidencyContainer::initialize failed on an empty directory: {e}"))),
+        }
+    } else {
+        Rs::Db(ResidencyDb::new(path.clone()), path.clone())
+    };
     // key -> resident?
     let mut m: BTreeMap<[u8; 16], bool> = BTreeMap::new();
     let mut burst_total = 0u32;
@@ -628,7 +726,7 @@ fn run_residency(case: &Case, ctx: &mut Ctx) -> Option<Violation> {
 
     macro_rules! viol {
         ($oracle:expr, $class:expr, $extra:expr, $detail:expr) => {{
-            return Some(Violation::new($oracle, $class, sig("residency", $class, $extra), $detail));
+            return Some(Violation::new($oracle, $class, sig(sysname, $class, $extra), $detail));
         }};
     }
 
@@ -640,21 +738,27 @@ fn run_residency(case: &Case, ctx: &mut Ctx) -> Option<Violation> {
         match op {
             Op::MarkResident { k } => {
                 let key = keys[*k % nk];
-                db.mark_resident(&key);
+                if let Err(e) = db.mark_resident(&key) {
+                    viol!("C05.op.no_error", "op_error", "", format!("op #{i} mark_resident failed: {e}"));
+                }
                 m.insert(key, true);
                 ctx.event(|| json!({"k":"op","op":"mark_resident","key":hex::encode(key)}));
                 ctx.mutations += 1;
             }
             Op::MarkNonResident { k } => {
                 let key = keys[*k % nk];
-                db.mark_non_resident(&key);
+                if let Err(e) = db.mark_non_resident(&key) {
+                    viol!("C05.op.no_error", "op_error", "", format!("op #{i} mark_non_resident failed: {e}"));
+                }
                 m.insert(key, false);
                 ctx.event(|| json!({"k":"op","op":"mark_non_resident","key":hex::encode(key)}));
                 ctx.mutations += 1;
             }
             Op::MarkSpan { k, off, len } => {
                 let key = keys[*k % nk];
-                db.mark_span_non_resident(&key, *off, *len);
+                if let Err(e) = db.mark_span_non_resident(&key, *off, *len) {
+                    viol!("C05.op.no_error", "op_error", "", format!("op #{i} mark_span_non_resident failed: {e}"));
+                }
                 m.insert(key, false);
                 ctx.event(|| json!({"k":"op","op":"mark_span_non_resident","key":hex::encode(key),"off":off,"len":len}));
                 ctx.mutations += 1;
@@ -668,7 +772,9 @@ fn run_residency(case: &Case, ctx: &mut Ctx) -> Option<Violation> {
                     list.push(k);
                     c += 1;
                 }
-                db.delete_keys(&list);
+                if let Err(e) = db.delete_keys(&list) {
+                    viol!("C05.op.no_error", "op_error", "", format!("op #{i} delete_keys failed: {e}"));
+                }
                 for k in ks {
                     m.insert(keys[*k % nk], false);
                 }
@@ -681,7 +787,9 @@ fn run_residency(case: &Case, ctx: &mut Ctx) -> Option<Violation> {
             Op::MarkBurst { n } => {
                 for c in burst_total..burst_total + *n {
                     let key = burst_key(false, case.bucket, c);
-                    db.mark_resident(&key);
+                    if let Err(e) = db.mark_resident(&key) {
+                        viol!("C05.op.no_error", "op_error", "", format!("op #{i} mark_resident (burst) failed: {e}"));
+                    }
                     m.insert(key, true);
                 }
                 burst_total += *n;
@@ -700,11 +808,8 @@ fn run_residency(case: &Case, ctx: &mut Ctx) -> Option<Violation> {
                 if let Err(e) = db.save() {
                     viol!("C05.save.ok", "save_failed", ",op=reload", format!("op #{i} save before load failed: {e}"));
                 }
-                match ResidencyDb::load(&path) {
-                    Ok(fresh) => db = fresh,
-                    Err(e) => {
-                        viol!("C05.reload.ok", "reload_failed", "", format!("op #{i} ResidencyDb::load failed after a successful save: {e}"));
-                    }
+                if let Err(e) = db.reload() {
+                    viol!("C05.reload.ok", "reload_failed", "", format!("op #{i} loading a fresh instance failed after a successful save: {e}"));
                 }
                 ctx.event(|| json!({"k":"op","op":"save+load","entries":db.entry_count()}));
                 ctx.count("reloads");
@@ -731,6 +836,10 @@ fn run_residency(case: &Case, ctx: &mut Ctx) -> Option<Violation> {
         if dup || scan != exp {
             viol!("C05.residency.scan", "scan_mismatch", after, format!("after op #{i} ({name}) scan_keys() yields {} keys (duplicates: {dup}), the model has {} resident keys", scan.len(), exp.len()));
         }
+        // resident_count()/entry_count() count entries, including keys that only carry a non-resident span;
+        // the property promises residency per key ("resident exactly when its latest mark says so"), not
+        // that count, so it is observed but not judged
+        ctx.obs_u64(db.entry_count() as u64);
         ctx.obs_u64(exp.len() as u64);
         ctx.state(exp.iter().fold(exp.len() as u64, |h, k| (h ^ Ctx::hash_of(k)).wrapping_mul(0x0000_0100_0000_01B3)));
     }
